@@ -55,7 +55,7 @@ def spec_walks(tier, seed):
 
 
 def nshards(tier):
-    return 64 if tier == "thorough" else None
+    return 128 if tier == "thorough" else None
 
 
 def run_parse(pid, tier, seed):
